@@ -76,6 +76,7 @@ FE = None
 UNIVERSE = []            # IDs with complete data
 _CHEMS = {}              # cache of real chemicals by spec
 _MIX = {}
+_EDITS = {}           # id(chemical) -> (chemical, [(Sfus, Hfus, Tm before, Hfus, Tm, Sfus after), …]) for `set` chemicals
 _DEFAULT_REF = {}
 R = None
 
@@ -102,10 +103,19 @@ def _sync_generated(build_driver):
             if os.getpid() == _RESTORE['pid']:
                 tmp = GEN.with_suffix('.lean.tmp'); tmp.write_text(_RESTORE['text'], encoding='utf-8'); tmp.replace(GEN)
         atexit.register(restore)
+    # the driver is rebuilt only when it is not the one of this text (stamp written after our own build): an unchanged
+    # tree costs nothing and concurrent checks of the same tree do not touch the executable
+    import hashlib
+    stamp = core.LEAN / '.lake' / 'c07_driver_generated.sha256'
+    sha = hashlib.sha256(GEN.read_bytes()).hexdigest()
+    if build_driver and not changed and stamp.exists() and stamp.read_text().strip() == sha and core.DRIVER.exists():
+        build_driver = False
     if build_driver:
         r = subprocess.run(['lake', 'build', 'driver'], cwd=core.LEAN, stdout=subprocess.PIPE, stderr=subprocess.STDOUT, text=True)
         if r.returncode != 0:
             raise RuntimeError('lake build driver failed after translating free_energy.py: ' + r.stdout[-800:])
+        try: stamp.write_text(sha)
+        except OSError: pass
     return changed
 
 
@@ -208,8 +218,17 @@ def get_chem(spec):
     elif kind == 'set':
         base = get_chem(('db', spec[1], spec[2]))
         c = base.copy(base.ID + '_set')
-        if spec[3] != '-': c.Tm = float(spec[3])
+        # set <ID> <ref> <Tm|-> <Tb|-> [Sfus=<x>] [Hfus=<y>]: public setters, in this order: Sfus (a value of the user's own),
+        # Tm, Tb, Hfus.  The stored (Sfus, Hfus, Tm) around every Tm / Hfus edit are recorded for the `sfusedit` lines.
+        extra = dict(tok.split('=') for tok in spec[5:])
+        edits = []
+        if 'Sfus' in extra: c.Sfus = float(extra['Sfus'])
+        if spec[3] != '-':
+            before = (c.Sfus, c.Hfus, c.Tm); c.Tm = float(spec[3]); edits.append(before + (c.Hfus, c.Tm, c.Sfus))
         if spec[4] != '-': c.Tb = float(spec[4])
+        if 'Hfus' in extra:
+            before = (c.Sfus, c.Hfus, c.Tm); c.Hfus = float(extra['Hfus']); edits.append(before + (c.Hfus, c.Tm, c.Sfus))
+        _EDITS[id(c)] = (c, edits)
     elif kind == 'lock':
         # lock <ID> <phase> [route [reference phase of the chemical before locking]] — every public route to a locked chemical
         ID, ph = spec[1], spec[2]
@@ -261,7 +280,7 @@ def get_chem(spec):
     else:
         raise ValueError('unknown chem spec ' + ' '.join(spec))
     if nocache: return c
-    if len(_CHEMS) > 400: _CHEMS.clear()
+    if len(_CHEMS) > 400: _CHEMS.clear(); _EDITS.clear()
     _CHEMS[key] = c
     return c
 
@@ -335,7 +354,9 @@ class Session:
         # and the MODEL derives it (`init … auto`); otherwise (Tm moved by the setter, blank chemical with its own Sfus)
         # the stored value is the user's and is passed as an input
         kind = spec[0] if spec else ''
-        self.sfus_auto = kind in ('db', 'ctor', 'lock', 'copy') or (kind == 'set' and spec[3] == '-')
+        # (since fix C07-5 the Tm / Hfus setters keep a derived Sfus consistent: `set` chemicals are `auto` too unless the
+        # user gave them an Sfus of their own first)
+        self.sfus_auto = kind in ('db', 'ctor', 'lock', 'copy') or (kind == 'set' and not any(t.startswith('Sfus=') for t in spec))
         self.cns = cn_objects(c)
         self.sent = set()
         self.cnname = {id(o): 'Cn.' + p for p, o in self.cns.items()}
@@ -598,9 +619,9 @@ class Oracle:
             if not rel_ok(a - b, dS, max(abs(a), abs(b)), 1e-9):
                 if which == 'Tm' and not self.s.sfus_auto and c.Sfus is not None \
                         and rel_ok(a - b, c.Sfus, max(abs(a), abs(b)), 1e-9):
-                    # Tm was moved through the setter, or a blank chemical was given its own Sfus: the jump is the stored
-                    # Sfus, which is the user's value (outside the property's quantifier; see fixes_proposed/C07-5.md)
-                    self.tags.append('Sfus-not-Hfus/Tm:setter-modified')
+                    # the user gave the chemical an Sfus of their own (Sfus setter; blank chemicals): the jump is that stored
+                    # value by the user's choice.  Everything else — also after the Tm / Hfus setters — must give Hfus / Tm
+                    self.tags.append('Sfus-not-Hfus/Tm:user-set-Sfus')
                 else:
                     self.fail(f'jump:{which}:S', f'S({hi!r},{which}) - S({lo!r},{which}) = {a - b!r}, expected {dS!r}')
 
@@ -726,7 +747,23 @@ def run_mix(t, emit, failures, tags, idx):
                 tot_x = float(fx())
                 emit(f'xsum {csv(parts)}', fbits(tot_x))
                 count += 1
-                if kd == 'S': continue            # each single-phase S is checked by `mixS`; the mixing term is the known finding
+                if kd == 'S':
+                    # per phase: sum n_i s_i(phase) + the mixing term (the code's — known finding #20 — or the ideal one)
+                    try:
+                        ps = {q: [float(pure_value(c, 'S', canon(q), T, P)) for c in chems] for q in phs}
+                    except TypeError:
+                        continue
+                    def sterm(v):
+                        tt = sum(v)
+                        return math.fsum(a * math.log(a / tt) for a in v if a) if tt > 0 else 0.0
+                    lin_s = math.fsum(x * y for q, v in zip(phs, mols) for x, y in zip(v, ps[q]))
+                    sc_s = math.fsum(abs(x * y) for q, v in zip(phs, mols) for x, y in zip(v, ps[q])) + 1e-12
+                    tcode = math.fsum(sterm(v) for v in mols)
+                    if not any(abs(tot_x - lin_s - x) <= 1e-9 * (sc_s + abs(x)) for x in (tcode, -R * tcode)):
+                        fail('multiphase-xS:not-the-sum-over-phases',
+                             f'xS over phases {phs} = {tot_x!r} but sum over phases of (sum n_i S_i + mixing term) = '
+                             f'{lin_s + tcode!r} (code term) / {lin_s - R * tcode!r} (ideal term)')
+                    continue
                 # independent expectation: sum over phases and chemicals of n * pure value of that phase
                 exp = math.fsum(x * y for q, v in zip(phs, mols) for x, y in zip(v, pv[q][kd]))
                 sc = math.fsum(abs(x * y) for q, v in zip(phs, mols) for x, y in zip(v, pv[q][kd])) + 1e-12
@@ -799,6 +836,23 @@ def run_mixx(t, emit, failures, tags, idx):
                          'what': f'mixture of {t[1]} (include_excess_energies={flag}) phase {ph!r} T={T} P={P} mol={n}: {what}'})
     if not abs(v - lin) <= 1e-9 * scale:
         fail('mixture-H:excess-flag:not-mole-weighted-sum', f'mixture.H = {v!r}, sum n_i (H_i + [flag] H_excess_i) = {lin!r}')
+    # S with the flag: mole-weighted (s_i + [flag] sx_i) plus the mixing term (the code's +sum n ln x — known finding #20 —
+    # or the ideal one; nothing else), extensive, additive at equal composition
+    sval = S(n)
+    effs = [a + (b if flag else 0.0) for a, b in zip(sv, sx)]
+    lins = math.fsum(a * b for a, b in zip(n, effs))
+    scs = math.fsum(abs(a * b) for a, b in zip(n, sv)) + math.fsum(abs(a * b) for a, b in zip(n, sx)) + 1e-12
+    tot = sum(n)
+    term = math.fsum(a * math.log(a / tot) for a in n if a) if tot > 0 else 0.0
+    count += 1
+    if not any(abs(sval - lins - x) <= 1e-9 * (scs + abs(x)) for x in (term, -R * term)):
+        fail('mixture-S:excess-flag:wrong', f'mixture.S = {sval!r} but sum n_i (S_i + [flag] S_excess_i) = {lins!r} and the mixing term is '
+             f'{term!r} (code) or {-R * term!r} (ideal)')
+    skn, s3 = S([k * a for a in n]), S([3.0 * a for a in n])
+    if not abs(skn - k * sval) <= 1e-9 * abs(k) * (scs + abs(sval)):
+        fail('mixture-S:excess-flag:not-extensive', f'S({k} n) = {skn!r} but {k} S(n) = {k * sval!r}')
+    if not abs(S([4.0 * a for a in n]) - (sval + s3)) <= 1e-9 * 4 * (scs + abs(sval)):
+        fail('mixture-S:excess-flag:not-additive', f'S(n + 3n) = {S([4.0 * a for a in n])!r} but S(n) + S(3n) = {sval + s3!r}')
     vm, vnm, vkn = H(m), H([a + b for a, b in zip(n, m)]), H([k * a for a in n])
     sc2 = scale + math.fsum(abs(a * b) for a, b in zip(m, eff))
     if not abs(vnm - (v + vm)) <= 1e-9 * sc2:
@@ -944,6 +998,10 @@ def _run_ops(ops):
             if t[1] == 'lock': tags.append('lock-route:' + (t[4] if len(t) > 4 else 'ctor') + ':' + t[3])
             for l in sess.head(): emit(l, 'ok')
         elif op == 'wiring':
+            for (s0, h0, t0, h1, t1, s1) in _EDITS.get(id(sess.c), (None, []))[1]:
+                # the Tm / Hfus setters: Sfus after the edit from the stored values before and after it
+                emit(f'sfusedit {ftok(s0)} {ftok(h0)} {ftok(t0)} {ftok(h1)} {ftok(t1)}', ftok(s1))
+                tags.append('sfusedit:' + ('user-Sfus' if not sess.sfus_auto else 'derived'))
             for l in sess.tabs(): emit(l, 'ok')
             emit(sess.init_line(), sess.init_answer())
             for kind in 'HS':
@@ -1203,6 +1261,8 @@ def gen_chem_case(rng):
         Tb = round(min(base.Tb * rng.uniform(0.75, 1.25), 0.93 * (base.Tc or 1e9)), 2)
         q = rng.random()
         spec = f'set {ID} {ref} {Tm if q < 0.7 else "-"} {Tb if q > 0.35 else "-"}'
+        if rng.random() < 0.25: spec += f' Sfus={round(rng.uniform(5, 80), 3)}'
+        if rng.random() < 0.35: spec += f' Hfus={round(base.Hfus * rng.uniform(0.5, 1.6) + 10.0, 1)}'
     elif r < 0.71:
         variant = rng.choice(['none', 'orig-reset', 'orig-reset', 'copy-reset', 'copy-noreset', 'copy-noreset'])
         subject = 'A' if variant == 'copy-reset' and rng.random() < 0.5 else 'B'
@@ -1392,6 +1452,9 @@ def corpus():
               'o:deriv L 320.0 101325.0', 'o:alias 320.0 101325.0']),
         Case(['mix Water,Ethanol,Glycerol L 320.0 101325.0 10.0,1.0,10.0 1.0,0.0,2.0 2.0']),
         Case(['mix Water,Ethanol S 250.0 101325.0 2.0,3.0 1.0,1.0 0.5']),
+        # Tm / Hfus setters keep a derived Sfus consistent; an Sfus of the user's own stays (C07-5)
+        Case(['chem set Water l 300.0 - Hfus=7000.0', 'wiring', 'S s 280.0 101325.0', 'o:jumpTm', 'o:jumpTb']),
+        Case(['chem set Water g 300.0 380.0 Sfus=25.0 Hfus=5000.0', 'wiring', 'o:jumpTm']),
         # include_excess_energies and force_gas_critical_phase
         Case(['mixx Water,Ethanol,Propane g 350.0 200000.0 1.0,2.0,0.5 0.5,0.0,3.0 2.0 1']),
         Case(['mixx Water,Ethanol,Propane l 350.0 200000.0 1.0,2.0,0.5 0.5,0.0,3.0 2.0 0']),
